@@ -1,5 +1,6 @@
 import Oracle.Common
 import MageModel.Fn.CheckF
+import MageModel.Fn.Json
 open Lean MageModel.Fn
 namespace Oracle.C14
 
@@ -40,10 +41,32 @@ def check (j : Json) : R Json := do
   | .error e => pure (errJ e)
   | .ok _ => pure (obj [("ok", jbool true), ("callOK", jbool true)])   -- call_conforms / result unchanged
 
-/-- identity: same function and equal argument values (type and value) -/
+/-- the argument list of an mg.F value as the JSON model sees it; `none` when a string is not valid UTF-8 -/
+def argsOf (j : Json) : R (Option (List MageModel.Fn.Json.Arg)) := do
+  let l ← j.getArr?
+  let mut out : List MageModel.Fn.Json.Arg := []
+  for a in l.toList do
+    let v ← fldStr a "v"
+    match (← fldStr a "t") with
+    | "int" => out := out ++ [.int (v.toInt?.getD 0)]
+    | "dur" => out := out ++ [.dur (v.toInt?.getD 0)]
+    | "bool" => out := out ++ [.bool (v == "true")]
+    | _ =>
+      let bytes := ByteArray.mk (bytesOfHex v.toList).toArray
+      match String.fromUTF8? bytes with
+      | some s => out := out ++ [.str s.toList]
+      | none => return none
+  return some out
+
+def idOf (j : Json) : R Json := do
+  match (← argsOf j) with
+  | some l => pure (jstr (String.ofList (MageModel.Fn.Json.encList l)))
+  | none => pure (jstr "<any>")
+
+/-- identity: same function and equal argument values (type and value); the ID itself is json.Marshal of the arguments -/
 def identity (j : Json) : R Json := do
   let same := (← fldStr j "fnA") == (← fldStr j "fnB") && (← fld j "argsA").compress == (← fld j "argsB").compress
-  pure (obj [("same", jbool same), ("keySame", jbool same)])
+  pure (obj [("same", jbool same), ("keySame", jbool same), ("idA", ← idOf (← fld j "argsA")), ("idB", ← idOf (← fld j "argsB"))])
 
 def handle (op : String) (j : Json) : R Json :=
   match op with
